@@ -473,6 +473,26 @@ static void exit_cleanup() {
     g = ExitBag();
 }
 struct ExitHolder { ~ExitHolder() { exit_cleanup(); } };
+// delorder lambda : the parameter SET object (the caller's; the three parameter objects inside stay with the library) is deleted BEFORE the key sets
+//   made from it, then the key sets (assembled from allocated parts: deletion does not depend on their contents)
+static void op_delorder(const V &a, V &r) {
+    int lambda = a.size() > 0 ? (int) a[0] : 128;
+    for (int which = 0; which < 2; which++) {
+        TFheGateBootstrappingParameterSet *P = new_default_gate_bootstrapping_parameters(lambda);
+        LweBootstrappingKey *bk = new_LweBootstrappingKey(P->ks_t, P->ks_basebit, P->in_out_params, P->tgsw_params);
+        if (which == 0) {
+            LweKey *lk = new_LweKey(P->in_out_params); TGswKey *gk = new_TGswKey(P->tgsw_params);
+            TFheGateBootstrappingSecretKeySet *sk = new TFheGateBootstrappingSecretKeySet(P, bk, NULL, lk, gk);
+            delete_gate_bootstrapping_parameters(P);
+            delete_gate_bootstrapping_secret_keyset(sk);
+        } else {
+            TFheGateBootstrappingCloudKeySet *ck = new TFheGateBootstrappingCloudKeySet(P, bk, NULL);
+            delete_gate_bootstrapping_parameters(P);
+            delete_gate_bootstrapping_cloud_keyset(ck);
+        }
+    }
+    r.push_back(1);
+}
 static void op_exitlife(const V &a, V &r) {
     int variant = a.size() > 0 ? (int) a[0] : 0, full = a.size() > 1 ? (int) a[1] : 0, lambda = a.size() > 2 ? (int) a[2] : 128;
     if (variant == 0) atexit(exit_cleanup); else { static ExitHolder holder; (void) holder; }
@@ -493,6 +513,7 @@ int main() {
         V r;
         if (op == "life") op_life(a, r);
         else if (op == "exitlife") op_exitlife(a, r);
+        else if (op == "delorder") op_delorder(a, r);
         else if (op == "small") op_small(a, r);
         else if (op == "fftkeylife") op_fftkeylife(a, r);
         else if (op == "threads") op_threads(a, r);
